@@ -307,7 +307,7 @@ RULE = ("copy cases: a problem (incl. empty, ranged rows, non-default parameters
         "through the whole query API incl. parameters and must be equal; then random interleavings of edits, solves, further copies and frees on the objects, "
         "each object compared with its own reference model after every step (ASan watches for shared state); conversion cases: QScopy_prob_mpq_dbl and "
         "QScopy_prob_mpq_mpf (precisions 64-1024) dumped entry by entry and compared with the rational problem within one ulp, infinities and zeros exactly; "
-        "non-trivial = every case; distinct = hash(script)")
+        "objective limits among the parameters; `twin solves`: the unsolved original and its unsolved copy get the same QSopt_dual/primal (status incl. OBJ_LIMIT and value must agree); 30% of the originals are read from LP/MPS files (integer marks, SOS sets) and then only get appended columns; non-trivial = every case; distinct = hash(script)")
 
 
 def run_check(prop, tier, seed):
